@@ -45,7 +45,6 @@ def evalAgg (E : Env) (fn : String) (vs : List Value) : Option Value :=
 def specAgg (fn : String) (vs : List Value) : String :=
   let nn := Spec.nonNull vs
   let distinct := fn.endsWith "d"
-  if distinct && Spec.mixedZeros nn then "-" else
   let xs := if distinct then Spec.distinctReps nn else nn
   match fn with
   | "count*" => s!"int {vs.length}"
@@ -62,29 +61,26 @@ def specAgg (fn : String) (vs : List Value) : String :=
     if xs.isEmpty then "null -" else if xs.all isInt then s!"int {intMax (xs.filterMap Spec.asInt)}" else "-"
   | _ => "-"
 
-def nanTrigger (vs : List Value) : String :=
-  if vs.any Spec.hasNaN then "C21-nan-grouping" else ""
-
 def step (_ : Unit) (ws : List String) : Unit × String × String × String :=
   match ws with
-  | "agg" :: fn :: toks =>
+  | "agg" :: fn :: rest =>
+    let (toks, oracle) := splitOracle rest
     match toks.mapM parseValue with
     | some vs =>
-      let E := mkEnv []
+      let E := mkEnv oracle
       match evalAgg E fn vs with
-      | some r => ((), obsValue r, specAgg fn vs, if fn.endsWith "d" then nanTrigger vs else "")
+      | some r => ((), obsValue r, specAgg fn vs, "")
       | none => ((), "bad-op", "-", "")
     | none => ((), "bad-op", "-", "")
-  | "group" :: toks =>
+  | "group" :: rest =>
+    let (toks, _) := splitOracle rest
     match toks.mapM parseValue with
     | some vs =>
-      if Spec.mixedZeros vs then ((), "unspec", "-", "")
-      else
-        let groups := Agg.groupRows false (vs.map fun v => ([v], ()))
-        let items := groups.map fun (k, rs) => showValue true (k.headD .null) ++ ":" ++ s!"i{rs.length}"
-        let sorted := (items.toArray.qsort (· < ·)).toList
-        let m := s!"{groups.length} | " ++ (if sorted.isEmpty then "-" else " ".intercalate sorted)
-        ((), m, s!"{(Spec.distinctReps vs).length}", nanTrigger vs)
+      let groups := Agg.groupRows false (vs.map fun v => ([v], ()))
+      let items := groups.map fun (k, rs) => showValue true (k.headD .null) ++ ":" ++ s!"i{rs.length}"
+      let sorted := (items.toArray.qsort (· < ·)).toList
+      let m := s!"{groups.length} | " ++ (if sorted.isEmpty then "-" else " ".intercalate sorted)
+      ((), m, s!"{(Spec.distinctReps vs).length}", "")
     | none => ((), "bad-op", "-", "")
   | _ => ((), "bad-op", "-", "")
 
